@@ -141,6 +141,17 @@ Scaled(n, sh) ==
   /\ typ' = IF sh = 3 THEN "" ELSE "{\n  \"v\": 1\n}"
   /\ expect' = "accept"
 
+\* ---- every rule name with a value of every JSON kind: most combinations are refused - what is demanded of them
+\* is a proper diagnostic (C16) and no crash (C02), whatever the verdict
+RuleNamesAll == <<"type", "min", "max", "exclusiveMinimum", "exclusiveMaximum", "precision", "minLength", "maxLength",
+                  "regex", "minItems", "maxItems", "optional", "nullable", "const", "enum", "or", "allOf",
+                  "additionalProperties", "serializeFormat", "nosuchrule">>
+RuleValuesAll == <<"0", "-1", "1.5", "\"x\"", "\"\"", "true", "null", "[]", "[1]", "{}", "{a: 1}", "@t", "\"@t\"", "[\"@t\"]">>
+RuleKinds(r, v, x) ==
+  /\ stage = "start" /\ fam' = "rulekinds" /\ stage' = "done" /\ list' = <<>>
+  /\ root' = Wrap(IF x = 1 THEN "root" ELSE "prop", ScalarCat[IF x = 1 THEN 1 ELSE 4].text \o " // {" \o RuleNamesAll[r] \o ": " \o RuleValuesAll[v] \o "}")
+  /\ typ' = "\"s\"" /\ expect' = "unknown"
+
 Skels == {"root", "prop", "item", "ref"}
 Next == \/ StartEnum
         \/ \E i \in 1..N : EnumAdd(i)
@@ -150,6 +161,7 @@ Next == \/ StartEnum
         \/ \E i \in 1..Len(FmtCat), s \in Skels \ {"ref"} : Format(i, s)
         \/ \E i \in 1..Len(NumCat), b \in 1..Len(NumCat), m \in 0..2 : Or2("num", i, b, m)
         \/ \E i \in 1..Len(StrCat), b \in 1..Len(NumCat), m \in 0..2 : Or2("str", i, b, m)
+        \/ \E r \in 1..Len(RuleNamesAll), v \in 1..Len(RuleValuesAll), x \in 1..2 : RuleKinds(r, v, x)
         \/ \E n \in ScaledSizes, sh \in 1..Len(ScaledShapes) : Scaled(n, sh)
         \/ \E i \in 1..(Len(TypeVocab) + 1) : ApVocab(i)
         \/ \E i \in 1..Len(KeyStrings), v \in {1, 4, 8} : KeyShortcut(i, v)
